@@ -1,5 +1,7 @@
 SPECIFICATION TSpec
 CONSTANTS
   AckWhileClosing = FALSE
-INVARIANTS ConformCircuits ConformDelivery ConformAck AckOnlyAfterTeardown ResponseRecoverable
+  GCIgnoresSettleFails = FALSE
+  ReforwardSkipsLockedIn = FALSE
+INVARIANTS ConformCircuits ConformDelivery ConformPkg ConformAck AckOnlyAfterTeardown RemovedOnlyWhenDone ResponseRecoverable NothingStranded
 CHECK_DEADLOCK TRUE
